@@ -162,6 +162,12 @@ class CUnpickler(pickle.Unpickler):
         return Pers(pid)
 
 
+# CPython compares "identical or equal" (PyObject_RichCompareBool): a NaN float object is a dict key equal to
+# itself, and tuples holding the same NaN object are equal. IDENTITY = False evaluates the same program with
+# plain == (what a value-based implementation can at best do); the two differ only around shared NaN objects.
+IDENTITY = True
+
+
 class RefDict(object):
     """Reference dictionary: linear search with an explicit equality; keeps the first key object and
     the last value per class, as Python's dict does."""
@@ -173,7 +179,7 @@ class RefDict(object):
     def __setitem__(self, k, v):
         hash(k)     # unhashable keys raise TypeError as in dict
         for i, (a, _) in enumerate(self.items_):
-            if a is k or self.eq(a, k):
+            if (IDENTITY and a is k) or self.eq(a, k):
                 self.items_[i] = (a, v)
                 return
         self.items_.append((k, v))
@@ -191,6 +197,8 @@ class RefDict(object):
 def py2eq(a, b):
     """Equality with Python-2 str semantics for Str2: equal to unicode of the same ASCII content,
     and (og-rek's rule, = Python 3 with encoding='bytes') to bytes of the same content."""
+    if IDENTITY and a is b:
+        return True
     if isinstance(a, Str2) or isinstance(b, Str2):
         if isinstance(a, Str2) and isinstance(b, Str2):
             return a.b == b.b
@@ -430,6 +438,13 @@ def handle(line):
             return load(b"" if f[1] == "-" else bytes.fromhex(f[1]), ref=True)
         if f[0] == "loadr0":
             return load(b"" if f[1] == "-" else bytes.fromhex(f[1]), ref0=True)
+        if f[0] in ("loadrn", "loadr0n"):      # the same without the identity shortcut
+            global IDENTITY
+            IDENTITY = False
+            try:
+                return load(b"" if f[1] == "-" else bytes.fromhex(f[1]), ref=f[0] == "loadrn", ref0=f[0] == "loadr0n")
+            finally:
+                IDENTITY = True
         if f[0] == "pyeq":
             i = f.index(";")
             a, _ = parse_key(f[1:i])
